@@ -47,7 +47,7 @@ def gen_plan(rng, tier, run):
     plan = {"files": files,
             # process model: every invocation in a fresh module set (= its own process) or all in one process
             "fresh": rng.random() < 0.5,
-            "opts": list(rng.choice(common.SELECTION_SETS)),
+            "opts": common.gen_selection(rng),
             "rev": rng.random() < 0.4,
             "ext": rng.choice([".pel", ".txt", ".PEL", ".bak"]) if ext and rng.random() < 0.7 else None,
             "hex": rng.random() < 0.25,
@@ -58,7 +58,7 @@ def gen_plan(rng, tier, run):
             "registry": common.gen_registry(rng, [f["recipe"] for f in files]) if rng.random() < 0.5 else None,
             # invocations executed earlier in the same module set (a library user / test harness calling main() repeatedly):
             # read-only, with other option sets; they must not influence the three modes compared below
-            "prelude": [{"mode": rng.choice(["-l", "-n", "-a"]), "opts": list(rng.choice(common.SELECTION_SETS)),
+            "prelude": [{"mode": rng.choice(["-l", "-n", "-a"]), "opts": common.gen_selection(rng),
                          "flags": [x for x in ("-r", "-x") if rng.random() < 0.3], "pos": rng.randrange(3)} for _ in range(rng.choice([0, 0, 1, 2]))],
             "orders": {k: {"policy": rng.choice(["perm", "perm", "perm", "asc", "desc"]), "key": rng.randrange(1 << 30)}
                        for k in ("n", "l", "a", "lx", "ax")}}
